@@ -6,7 +6,7 @@ d=$1; name=$(basename $d)
 export GOFLAGS=-mod=mod GOPROXY=off
 wt=/tmp/wt-confirm-$name-$$
 git -C /repo worktree add --detach -f $wt HEAD >/dev/null 2>&1 || exit 2
-demo_path=$(python3 -c "import json;print(json.load(open('$d/meta.json'))['demo_path'])")
+demo_path=$(python3 -c "import json;print(json.load(open('$d/meta.json'))['demo_path'].split()[0].rstrip(';,'))")
 demo_cmd=$(python3 -c "
 import json,re
 c=re.sub(r'\s+\((?!.*\)\s*\S).*$','',json.load(open('$d/meta.json'))['demo_cmd'].strip())
